@@ -6,5 +6,5 @@ WT="/tmp/trypatch_$$"
 git -C /repo worktree add --detach "$WT" HEAD -q || exit 2
 if ! git -C "$WT" apply --check "$P" 2>/dev/null; then echo "PATCH-DOES-NOT-APPLY $P"; git -C /repo worktree remove --force "$WT"; exit 3; fi
 git -C "$WT" apply "$P"
-cd /verif && VERIF_REPO="$WT" ./check "$ID" --tier "$TIER" 2>&1 | grep -E "^VIOLATION|^MACHINERY|^KNOWN|tier=" | cut -c1-400 | head -8
+cd /verif && VERIF_DEVRUN=1 VERIF_REPO="$WT" ./check "$ID" --tier "$TIER" 2>&1 | grep -E "^VIOLATION|^MACHINERY|tier=" | cut -c1-400 | head -8
 git -C /repo worktree remove --force "$WT"
